@@ -12,7 +12,9 @@ Additionally the two functions that decide UNKNOWN are tied directly:
 A definite-verdict flip that belongs to an open known-finding class (K_selfrec_open, K_nth_open;
 the class predicates are evaluated in Coq and compared with their Python mirrors) prints
 KNOWN-FINDING; any other flip is a VIOLATION."""
+import base64
 import json
+import pickle
 import random
 import sys
 import time
@@ -200,8 +202,8 @@ def run(run):
     rng = random.Random(run.seed)
     thorough = run.tier == "thorough"
     run.cov["rule"] = (
-        "pairs (open tree t, closed completion t') x formula: 5 grammars (assignment language, nested blocks "
-        "with epsilon, nested lists, numbers, a self-recursive grammar); t' random derivation (fuzzer shape for "
+        "pairs (open tree t, closed completion t') x formula: 4 grammars (assignment language, nested blocks "
+        "with epsilon, nested lists of numbers, a self-recursive grammar); t' random derivation (fuzzer shape for "
         "epsilon; every 4th re-parsed = parser shape), t = t' with 1-4 random nonterminal subtrees cut to open "
         "leaves keeping all node ids; formulas: the C03 generator (quantifier chains 1-3 with/without match "
         "expressions, not/and/or over all 9 structural predicates, count, string equality, str.len) plus "
@@ -275,6 +277,10 @@ def run(run):
                         "open": str(t), "closed": str(tp), "cuts": sorted(map(list, cuts)),
                         "formula": str(fobj), "verdict_open": r, "verdict_closed": rp,
                         "K_selfrec_open": ks, "K_nth_open": kn, "key": key, "definite": definite}
+                try:
+                    meta["ast_pickle"] = base64.b64encode(pickle.dumps(ast)).decode()
+                except Exception:
+                    meta["ast_pickle"] = None
                 if is_flip(r, rp):
                     flips.append(meta)
                 try:
@@ -384,14 +390,15 @@ def run(run):
         w = unknown[0]
         run.violation({"kind": "definite verdict on an open tree contradicts the verdict on a completion",
                        "witness": {x: w[x] for x in ("grammar", "tree_open", "tree_closed", "open", "closed",
-                                                     "cuts", "formula")},
+                                                     "cuts", "formula", "ast_pickle")},
                        "verdict_open": w["verdict_open"], "verdict_closed": w["verdict_closed"],
                        "all_failing": len(unknown), "theorem": "Props/C06.v C06_verdict_stable_partial + correspondence",
                        "how_to_replay": "./check C06 --replay <this file>"})
     elif corr_bad:
         what, w = corr_bad[0]
         run.violation({"kind": "correspondence broken, no verdict flip found", "function": what,
-                       "first": {x: w[x] for x in w if x not in ("tree_closed", "key")}, "count": len(corr_bad),
+                       "first": {x: w[x] for x in w if x not in ("tree_closed", "key", "ast_pickle")},
+                       "count": len(corr_bad),
                        "obligation": "correspondence Eval3.v (m3_evaluate / qmm3 / reachb / K_*) <-> "
                                      "isla.evaluator.evaluate / quantified_formula_might_match / GrammarGraph.reachable"},
                       found_input=False)
@@ -416,7 +423,12 @@ def replay(path):
         return 1
     g = GRAMMARS[w["grammar"]]
     t, tp = tree_from_json(w["tree_open"]), tree_from_json(w["tree_closed"])
-    print("formula (repr):", w["formula"], "\nopen:", t, "\nclosed:", tp)
+    print("formula:", w["formula"], "\nopen:", t, "\nclosed:", tp)
     print("recorded verdicts:", d.get("verdict_open"), d.get("verdict_closed"))
-    print("the formula object is rebuilt by rerunning with the same seed: VERIF_SEED=%s ./check C06" % d.get("seed"))
-    return 1
+    if not w.get("ast_pickle"):
+        print("formula object not recorded; rerun with VERIF_SEED=%s ./check C06" % d.get("seed"))
+        return 1
+    fobj = build3(pickle.loads(base64.b64decode(w["ast_pickle"])))
+    r, rp = impl_evaluate(fobj, t, g), impl_evaluate(fobj, tp, g)
+    print("verdicts now:", r, rp)
+    return 1 if is_flip(r, rp) else 0
